@@ -16,7 +16,7 @@ EXPLANATION = (
     "its payload; C04.R2 the functions that launder a lifetime through unsafe are enumerated and every public one is "
     "exercised by the corpus; C04.R3 every lifetime in the return type of a safe function is anchored in its arguments "
     "(type-level, from the resolved signatures); C04.R4 a by-value handle argument keeps its lifetime in a handle-returning "
-    "function. Not decided: programs outside the generated grammar; unsafe callers.")
+    "function; C04.R5 every impl of a …Scope<'a> marker trait anchors 'a in Self or in a …Scope<'a> bound. Not decided: programs outside the generated grammar; unsafe callers.")
 EXPLORATION_RULE = (
     "one evaluation = one generated program function judged by rustc (witnesses must be rejected, twins accepted); "
     "distinct = distinct (escape route, handle, producer) triples; non-trivial = the twin of the witness compiles, i.e. "
@@ -121,11 +121,11 @@ def run_corpus(ctx, tier):
         stats["programs"] += 2 * len(fns)
         for i, (n, wb, tb) in enumerate(W.TRAIT_WITNESSES):
             classes = per.get(f"t{i:02d}", [])
-            if classes and "E0277" not in classes:
+            if classes and not ({"E0277", "E0599"} & set(classes)):
                 raise HarnessBroken(f"CONTROL-BROKEN: trait witness `{n}` fails with unexpected {classes}")
-            ok = "E0277" in classes
-            ctx.inst(R, n, ok, "rejected by rustc: E0277 (required auto trait not implemented); twin accepted" if ok else
-                     "this program COMPILES: the thread-safety bound is missing\n" + wb, site="Send/Sync witness",
+            ok = bool({"E0277", "E0599"} & set(classes))
+            ctx.inst(R, n, ok, f"rejected by rustc: {sorted(set(classes))} (required trait bound not satisfied); twin accepted" if ok else
+                     "this program COMPILES: a required trait bound (thread safety / scope marker) is missing\n" + wb, site="Send/Sync witness",
                      detail=None if ok else {"witness_source": wb})
         # ---- conversion witnesses (post-monomorphisation const assertions: need code generation)
         for i, (n, wb, tb) in enumerate(W.CONVERSION_WITNESSES):
@@ -287,6 +287,30 @@ def r4_handle_inputs_connected(ctx, P):
     ctx.floor(R, "by-value handle arguments of handle-returning functions", n, 50 if ctx.config != "nodefault" else 35)
 
 
+def r5_scope_marker_impls(ctx, P):
+    R = "C04.R5"
+    ctx.rule(R, "every impl of a scope marker trait (…Scope<'a>: 'allocations made through Self live for 'a') anchors 'a: it "
+                "occurs in the Self type, or Self is built from a type parameter that is itself bounded by a …Scope<'a> trait "
+                "with the same 'a; otherwise 'a is free and into_slice()/alloc() hand out 'static references")
+    n = 0
+    for im in P.facts["impls"]:
+        tr = im.get("trait") or ""
+        if im.get("trait_krate") != "bump_scope" or not tr.endswith("Scope") or not im.get("trait_regions"):
+            continue
+        for r in im["trait_regions"]:
+            n += 1
+            in_self = r in im.get("self_regions", [])
+            via = [pr["s"] for pr in im.get("pred_regions", []) if r in pr["regions"] and (set(pr["params"]) & set(im.get("self_params", [])))
+                   and re.search(r"Scope<", pr["s"])]
+            ok = in_self or bool(via)
+            ctx.inst(R, f"impl {tr.split('::')[-1]}<{r}> for {im['self_ty']}", ok,
+                     ("the lifetime occurs in the Self type" if in_self else f"anchored by the bound {via[0]}") if ok else
+                     f"the lifetime of `impl {tr.split('::')[-1]}<'a> for {im['self_ty']}` occurs neither in the Self type nor in a "
+                     "…Scope<'a> bound of its type parameters: any owner (e.g. an owned Bump inside the wrapper) becomes a scope "
+                     "for every 'a, including 'static", where=f"{im.get('file')}:{im.get('line')}", site="scope lifetime anchored")
+    ctx.floor(R, "scope-marker impls with a lifetime argument", n, 10)
+
+
 def PRODUCER_TEXT():
     return [(n, e, s) for (n, e, s) in W.PRODUCERS + W.MUT_PRODUCERS] + \
            [("route", t[3] + t[4], "") for t in W.escape_templates()] + [("conv", w + t, "") for _, w, t in W.CONVERSION_WITNESSES]
@@ -305,4 +329,5 @@ def run(ctx, progs):
         r2_laundering_sites(ctx, P)
         r3_output_lifetimes_anchored(ctx, P)
         r4_handle_inputs_connected(ctx, P)
+        r5_scope_marker_impls(ctx, P)
     ctx.config = None
